@@ -21,6 +21,15 @@ MS_ACCOUNT_PATH = {'legacy': "m/45'", 'p2sh-segwit': "m/48'/%d'/0'/1'", 'segwit'
 MS_FAMILY = {'legacy': 'legacy', 'p2sh-segwit': 'p2sh_p2wsh', 'segwit': 'p2wsh'}
 
 
+# BIP39 test-vector sentences (valid checksums)
+MNEMONICS = [
+    'abandon abandon abandon abandon abandon abandon abandon abandon abandon abandon abandon about',
+    'legal winner thank year wave sausage worth useful legal winner thank yellow',
+    'letter advice cage absurd amount doctor acoustic avoid letter advice cage above',
+    'zoo zoo zoo zoo zoo zoo zoo zoo zoo zoo zoo wrong',
+]
+
+
 def init_worker(datadir):
     _STATE['datadir'] = datadir
     P.install(datadir, [], 'bitcoin')
@@ -162,7 +171,22 @@ class WalletWorld:
         BW = self.BW
         self.w.op('create_wallet', name=wi.name, kind=wi.kind, wt=wi.wt)
         tag = b'%d/%d' % (self.ch.seed % 1000003, i)
-        if wi.kind == 'hd':
+        if wi.kind == 'hd' and self.focus == 'C09' and self.ch.coin('from_mnemonic', 0.3):
+            # wallet from a BIP39 sentence (+ optional passphrase); the reference seed is PBKDF2 from the standard
+            import hashlib
+            import unicodedata
+            words = MNEMONICS[self.ch.index('mnemonic', len(MNEMONICS))]
+            # ASCII passphrases only: Mnemonic.to_seed() does not NFKD-normalise the passphrase as BIP39 says, which is
+            # a matter of C14 (not applicable here), not of wallet key paths
+            pw = self.ch.pick('mnemonic_pw', ['', 'TREZOR', 'correct horse', 'x'])
+            seed = hashlib.pbkdf2_hmac('sha512', unicodedata.normalize('NFKD', words).encode(),
+                                       ('mnemonic' + unicodedata.normalize('NFKD', pw)).encode(), 2048, 64)
+            master = rbip32.RefHDNode.from_seed(seed)
+            wi.ref['master'] = master
+            wi.ref['mnemonic'] = (words, pw)
+            w = BW.Wallet.create(wi.name, keys=words, password=pw, network=self.network, witness_type=wi.wt,
+                                 db_uri=wi.db, db_cache_uri=wi.cache)
+        elif wi.kind == 'hd':
             master = rbip32.RefHDNode.from_seed(rhashes.sha256(b'hd seed ' + tag))
             wi.ref['master'] = master
             w = BW.Wallet.create(wi.name, keys=self.xprv(master), network=self.network, witness_type=wi.wt,
